@@ -144,7 +144,8 @@ fn final_state(o: &Obj) -> Vec<i64> { vec![o.state, digest(&o.buf), digest(o.s.a
 
 fn is_ref_op(op: &[i64]) -> bool { matches!(op[0], 0 | 6 | 7 | 8 | 9 | 10 | 12 | 13 | 14 | 16 | 18 | 19 | 20 | 21 | 22 | 23 | 24 | 25) }
 
-/// params: [trait: 0 ShapesRef / 1 ShapesMut ; container: 0 Box, 1 &mut, 2 & (ShapesRef only), 3 Box with a CArc context]
+/// params: [trait: 0 ShapesRef / 1 ShapesMut ; container: 0 Box, 1 &mut, 2 & (ShapesRef only), 3 Box with a CArc context,
+///          4 CArcSome (ShapesRef only), 5 a clone of a CArcSome that the caller keeps, with a CArc context (ShapesRef only)]
 pub fn run(params: &[i64], ops: &Rows, mon: &mut Mon) -> Rows {
     let which = params.get(0).copied().unwrap_or(0);
     let kind = params.get(1).copied().unwrap_or(0);
@@ -168,6 +169,8 @@ pub fn run(params: &[i64], ops: &Rows, mon: &mut Mon) -> Rows {
         (0, 0) => drive_ref!(trait_obj!(Obj::new(1) as ShapesRef)),
         (0, 1) => { let mut o = Obj::new(1); drive_ref!(trait_obj!(&mut o as ShapesRef)); st_o = Some(final_state(&o)); }
         (0, 2) => { let o = Obj::new(1); drive_ref!(trait_obj!(&o as ShapesRef)); st_o = Some(final_state(&o)); }
+        (0, 4) => drive_ref!(trait_obj!(CArcSome::from(Obj::new(1)) as ShapesRef)),
+        (0, 5) => { let shared = CArcSome::from(Obj::new(1)); drive_ref!(trait_obj!((shared.clone(), CArc::<()>::from(arc.clone())) as ShapesRef)); st_o = Some(final_state(&shared)); }
         (0, _) => drive_ref!(trait_obj!((Obj::new(1), CArc::<()>::from(arc.clone())) as ShapesRef)),
         (_, 0) | (_, 2) => drive!(trait_obj!(Obj::new(1) as ShapesMut)),
         (_, 1) => { let mut o = Obj::new(1); drive!(trait_obj!(&mut o as ShapesMut)); st_o = Some(final_state(&o)); }
